@@ -225,7 +225,7 @@ REGEX_COLOR_HSL = re.compile(
 )
 REGEX_LENGTH = re.compile(r"(%s)([A-Za-z%%]*)" % PATTERN_FLOAT)
 REGEX_CSS_COMMENT = re.compile(r"\/\*[\s\S]*?\*\/|\/\/.*$", re.MULTILINE)
-REGEX_CSS_STYLE = re.compile(r"([^{]+)\s*\{\s*([^}]+)\s*\}")
+REGEX_CSS_STYLE = re.compile(r"([^{]+)\s*\{\s*([^}]*)\s*\}")
 REGEX_CSS_FONT = re.compile(
     r"^"
     r"(?:"
